@@ -7,6 +7,7 @@ from typing import Any, Dict, List, Optional, Tuple
 
 from harness.extract import obs_enums as x_enums
 from harness.extract import obs_tables as x_tables
+from harness.extract import obs_config as x_cfg
 from harness.lib.core import VERIF, Ctx, Rng, lean_lock, run_driver
 from harness.rigs import obs as rig
 from harness.rigs import obs_env as env
@@ -28,7 +29,7 @@ MANIFEST = {
     "technique": "Lean 4 theorems over an executable model of the observation classes; model tied by regenerated tables and a differential rig",
     "design_ref": "5/C02",
 }
-MODULES = ["PrimaiteModel.Props.C02"]
+MODULES = ["PrimaiteModel.Props.C02", "PrimaiteModel.Props.C02Cfg"]
 EXE = "drv_c02"
 
 
@@ -77,7 +78,32 @@ def tree_oracle(cfg: dict, ev: Dict[str, List[int]]) -> List[dict]:
         if rig.canon(o.default_observation) != before[path]:
             bad.append({"class": type(o).__name__, "check": "default_observation unchanged by observe", "path": path,
                         "detail": rig.first_diff(before[path], rig.canon(o.default_observation))})
-    return bad
+    # a failure inside a child shows in every ancestor too: keep the innermost object per check
+    def inner(b):
+        pre = "" if b["path"] == "/" else b["path"]
+        return not any(o is not b and o["check"] == b["check"] and o["path"] != b["path"] and o["path"].startswith(pre + "/") for o in bad)
+    return [b for b in bad if inner(b)]
+
+
+def flatten_probe(sp, value, want=None):
+    """(`<length> <number of leaves>` of flatten_space / flatten, or `raised`; a description when something is inconsistent)"""
+    import gymnasium
+    import numpy as np
+    try:
+        n = int(gymnasium.spaces.flatten_space(sp).shape[0])
+        x = gymnasium.spaces.flatten(sp, value)
+    except ValueError as e:
+        if "need at least one array to concatenate" in str(e):
+            return "raised", None
+        return "raised", f"flatten raises {type(e).__name__}: {e}"
+    except Exception as e:  # noqa: BLE001
+        return "raised", f"flatten raises {type(e).__name__}: {e}"
+    leaves = len(env.leaf_paths(rig.canon(value)))
+    if len(x) != n or int(np.sum(x)) != leaves or not set(np.unique(x)) <= {0, 1}:
+        return f"{n} {leaves}", f"flatten(space, value) has {len(x)} entries / {int(np.sum(x))} ones, flatten_space says {n}, the value has {leaves} leaves"
+    if want is not None and f"{n} {leaves}" != want:
+        return f"{n} {leaves}", f"flattened length changed between observations: {n} {leaves} vs {want}"
+    return f"{n} {leaves}", None
 
 
 def component_case(rng: Rng, n_states: int, defects: bool, invalid: bool = False) -> dict:
@@ -88,7 +114,7 @@ def component_case(rng: Rng, n_states: int, defects: bool, invalid: bool = False
     obj, facts = rig.gen_object(rng, defects, invalid)
     ev = rig.enum_values()
     osp, th = rig.split_cfg(facts["cfg"])
-    lines = ["reset", f"capture {rig.B(capture)}", rig.rawcfg_line(osp, th), "show", "space", "default"]
+    lines = ["reset", f"capture {rig.B(capture)}", rig.rawcfg_line(osp, th), "show", "space", "flatdim", "default"]
     if obj is None:
         return {"capture": capture, "facts": facts, "lines": lines[:3], "impl": ["ok", "ok", "rejected"], "space": None, "states": [],
                 "rejected": getattr(rig.build_impl, "last_error", "?"), "tree": [], "defaults_changed": []}
@@ -96,7 +122,8 @@ def component_case(rng: Rng, n_states: int, defects: bool, invalid: bool = False
     cspace = rig.canon_space(sp)
     nodes = rig.walk(obj)
     before = {path: rig.canon(o.default_observation) for path, o in nodes}
-    impl: List[Any] = ["ok", "ok", "ok", " ".join(rig.obj_tokens(obj, fresh=True)), cspace,
+    flat_dim, flat_bad = flatten_probe(sp, obj.default_observation)
+    impl: List[Any] = ["ok", "ok", "ok", " ".join(rig.obj_tokens(obj, fresh=True)), cspace, flat_dim,
                        (rig.canon(obj.default_observation), bool(sp.contains(obj.default_observation)), None, False)]
     states = []
     for _ in range(n_states):
@@ -110,10 +137,13 @@ def component_case(rng: Rng, n_states: int, defects: bool, invalid: bool = False
         impl.append((o, contained, exc, rig.float_boundary(pairs)))
         if o == "raised":
             break  # after an exception the object's memory is half-updated; stop the sequence on both sides
+        if contained and not flat_bad:
+            _, bad2 = flatten_probe(sp, raw, want=flat_dim)
+            flat_bad = flat_bad or bad2
     changed = [{"class": type(o).__name__, "path": path, "detail": rig.first_diff(before[path], rig.canon(o.default_observation))}
                for path, o in nodes if rig.canon(o.default_observation) != before[path]]
     return {"capture": capture, "facts": facts, "lines": lines, "impl": impl, "space": cspace, "states": states,
-            "tree": tree_oracle(facts["cfg"], ev), "defaults_changed": changed, "objects": len(nodes)}
+            "tree": tree_oracle(facts["cfg"], ev), "defaults_changed": changed, "objects": len(nodes), "flat_bad": flat_bad}
 
 
 def length_relations(ctx: Ctx, cfg: dict) -> None:
@@ -163,7 +193,7 @@ def token_diff(a: str, b: str) -> str:
     return f"lengths {len(x)} vs {len(y)}"
 
 
-SPACE_AT, DEFAULT_AT, FIRST_OBS = 4, 5, 6
+SPACE_AT, FLAT_AT, DEFAULT_AT, FIRST_OBS = 4, 5, 6, 7
 
 
 def check_case(ctx: Ctx, name: str, case: dict, model: List[str]) -> bool:
@@ -200,6 +230,19 @@ def check_case(ctx: Ctx, name: str, case: dict, model: List[str]) -> bool:
         agree = False
         ctx.violation({"kind": "model-vs-impl", "what": "space"}, f"{name}: declared space differs from the model's: {rig.first_diff(impl[SPACE_AT], mspace)}",
                       {"case": name, "cfg": cfg, "impl_space": impl[SPACE_AT], "model_space": mspace})
+    # flattening: length and number of leaves are a function of the space (model: flatDim), or gymnasium refuses the space (F-C02-2)
+    ctx.count("component:flatten-" + ("raises (space with an empty Dict)" if impl[FLAT_AT] == "raised" else "ok"))
+    if impl[FLAT_AT] != model[FLAT_AT]:
+        agree = False
+        ctx.violation({"kind": "model-vs-impl", "what": "flatten_space length / leaves"}, f"{name}: flatten_space gives {impl[FLAT_AT]!r}, the model {model[FLAT_AT]!r}",
+                      {"case": name, "cfg": cfg})
+    if impl[FLAT_AT] == "raised":
+        ctx.violation({"kind": "flatten-raises", "site": "gymnasium.spaces.flatten", "cause": "empty-dict-subspace", "property_oracle": "flatten(space, obs) is defined"},
+                      f"{name}: the declared space contains a Dict without sub-spaces; gymnasium cannot flatten it (flatten_obs would make reset raise)",
+                      {"case": name, "cfg": cfg, "flatten": True})
+    if case.get("flat_bad"):
+        ctx.violation({"kind": "flatten-inconsistent", "property_oracle": "len(flatten(space, obs)) == flatten_space(space).shape[0]"},
+                      f"{name}: {case['flat_bad']}", {"case": name, "cfg": cfg, "capture": case["capture"], "states": case["states"]})
     for idx in range(DEFAULT_AT, len(impl)):
         o, contained, exc, fb = impl[idx]
         mv, mcontained = parse_report(model[idx])
@@ -268,7 +311,11 @@ def run_env_recipes(ctx: Ctx, recipes: List[dict], chaos=None) -> List[Tuple[str
         except Exception as e:  # noqa: BLE001 - an exception out of reset/step IS an observation failure when it comes from observe()
             import traceback
             tb = traceback.format_exc()
-            if "observations/" in tb or "gymnasium/spaces" in tb:
+            if "need at least one array to concatenate" in str(e) and "gymnasium/spaces/utils" in tb:
+                ctx.violation({"kind": "flatten-raises", "site": "gymnasium.spaces.flatten", "cause": "empty-dict-subspace", "class": "env"},
+                              f"{rc['label']}: observation_space / reset / step raise: gymnasium cannot flatten a Dict without sub-spaces",
+                              {"recipe": rc, "traceback": tb[-800:]})
+            elif "observations/" in tb or "gymnasium/spaces" in tb:
                 ctx.violation({"kind": "env-raises", "site": tb.strip().splitlines()[-3].strip()[:120]},
                               f"{rc['label']}: step/reset raised inside the observation layer: {type(e).__name__}: {e}",
                               {"recipe": rc, "traceback": tb[-1500:]})
@@ -342,6 +389,10 @@ def replay_env(r: dict, prop: str = "C02") -> bool:
 
 def replay(rec: dict) -> bool:
     r = rec.get("replay", rec)
+    if r.get("flatten") and "cfg" in r:
+        obj = rig.build_impl(r["cfg"])
+        dim, bad = flatten_probe(obj.space, obj.default_observation)
+        return dim != "raised" and not bad
     if "recipe" in r:
         return replay_env(r)
     if "cfg" in r and (r.get("state") is not None or "states" in r or "problem" in r) and "sig" not in r:
@@ -353,32 +404,37 @@ def replay(rec: dict) -> bool:
 
 
 # ---------------------------------------------------------------------------------------------------- run
-def run(ctx: Ctx):
-    with lean_lock():
-        ctx.extract(x_enums.GEN_NAME, x_enums.emit)
-        ctx.extract(x_tables.GEN_NAME, x_tables.emit)
-        ctx.prove(MODULES, exes=[EXE], clean=False, leanchecker=ctx.thorough)
-    ctx.cov["rule"] = ("component cases = (real observation tree built by ObservationManager from a generated config, capture flag, sequence of "
-                       "synthetic states over every enum value x counts past the top threshold x absent/off x traffic up to 10x speed); env cases = "
-                       "trajectory of a shipped/mutated scenario; a case is non-trivial when some observed component is present on an ON node; "
-                       "distinct by canonical JSON of (config, states)")
-    # Gen cross-check against the imported implementation
-    ev = rig.enum_values()
-    gen = {n: [v for _, v in m] for n, (_, m) in x_enums.read_enums().items()}
-    ctx.oblige("gen:ObsEnums equals list(Enum) at run time", "extractor", all(gen.get(k) == v for k, v in ev.items()),
-               json.dumps({k: (gen.get(k), v) for k, v in ev.items() if gen.get(k) != v}))
+def guarded(ctx: Ctx, name: str, fn, *a):
+    """A rig family must never take the whole run down: a crash inside it (a rig assumption the changed code no longer meets) is a
+    broken correspondence obligation, reported with its traceback; the other families still run and search for a concrete input."""
+    import traceback
+    try:
+        return fn(*a)
+    except Exception as e:  # noqa: BLE001
+        ctx.oblige(f"rig:{name} ran to completion", "correspondence", False, f"{type(e).__name__}: {e}\n{traceback.format_exc()[-1800:]}")
+        return None
 
-    # ---- corpus first: witnesses of fixed findings must now be in space; witnesses of open findings still fail (KNOWN-FINDING)
+
+def corpus_family(ctx: Ctx):
+    """witnesses of fixed findings must now be in space; witnesses of open findings still fail (KNOWN-FINDING)"""
     for f in sorted((VERIF / "corpus" / "C02").glob("*.json")):
         rec = json.loads(f.read_text())
-        ok, detail = run_corpus_case(rec)
+        if rec.get("flatten"):
+            obj = rig.build_impl(rec["cfg"])
+            dim, bad = flatten_probe(obj.space, obj.default_observation)
+            ok, detail = dim != "raised" and not bad, f"flatten: {dim} {bad or ''}"
+        elif "recipe" in rec or "states" in rec:
+            ok, detail = replay(rec), "replayed"
+        else:
+            ok, detail = run_corpus_case(rec)
         ctx.count("corpus:" + ("in-space" if ok else "not-in-space"))
         ctx.case({"corpus": f.name}, True)
         if not ok:
             ctx.violation(dict(rec["sig"], property_oracle="space.contains(observe(state))"),
                           f"corpus {f.name}: {rec['what']} ({detail})", dict(rec, corpus=f.name))
 
-    # ---- component level
+
+def component_family(ctx: Ctx):
     n_cases = ctx.scale(220, 4000)
     rng = ctx.rng.fork("obs-components")
     cases = []
@@ -407,7 +463,8 @@ def run(ctx: Ctx):
     ctx.oblige("rig:R-obs components agree on every case", "correspondence", agree == len(cases), f"{len(cases) - agree} of {len(cases)} cases disagree")
     ctx.notes.append(f"component level: {len(cases)} object trees, {sum(len(c['states']) for _, c in cases)} observe calls, {time.time() - t0:.1f}s")
 
-    # ---- environment level
+
+def env_family(ctx: Ctx):
     recipes = env_recipes(ctx, ctx.rng.fork("obs-env"))
     t0 = time.time()
     runs = run_env_recipes(ctx, recipes)
@@ -420,3 +477,26 @@ def run(ctx: Ctx):
             agree += 1
     ctx.oblige("rig:R-env observation trajectories agree with the model", "correspondence", agree == len(runs), f"{len(runs) - agree} of {len(runs)} runs disagree")
     ctx.notes.append(f"environment level: {len(runs)} of {len(recipes)} recipes ran, {ctx.hist.get('env:steps', 0)} steps, {time.time() - t0:.1f}s")
+
+
+def run(ctx: Ctx):
+    with lean_lock():
+        ctx.extract(x_enums.GEN_NAME, x_enums.emit)
+        ctx.extract(x_tables.GEN_NAME, x_tables.emit)
+        ctx.extract(x_cfg.GEN_NAME, x_cfg.emit)
+        ctx.prove(MODULES, exes=[EXE], clean=False, leanchecker=ctx.thorough)
+    ctx.cov["rule"] = ("component cases = (real observation tree built by ObservationManager from a generated scenario-style configuration - explicit "
+                       "lists shorter/equal/longer than their counts, per-node overrides, ACL sub-configs, rejected configurations - , capture flag, "
+                       "sequence of synthetic states over every enum value x counts past the top threshold x absent/off x traffic up to 10x speed); the "
+                       "model builds its object from the same configuration text; every object of every tree goes through the default/space/ON-observe "
+                       "key-structure oracle; env cases = one recipe (shipped / toggled / regenerated observation space / generated scenario / shipped "
+                       "or generated episode schedule); a component case is non-trivial when some observed component is present on an ON node; "
+                       "distinct by canonical JSON of (config, states) or of the recipe")
+    # Gen cross-check against the imported implementation
+    ev = rig.enum_values()
+    gen = {n: [v for _, v in m] for n, (_, m) in x_enums.read_enums().items()}
+    ctx.oblige("gen:ObsEnums equals list(Enum) at run time", "extractor", all(gen.get(k) == v for k, v in ev.items()),
+               json.dumps({k: (gen.get(k), v) for k, v in ev.items() if gen.get(k) != v}))
+    guarded(ctx, "corpus", corpus_family, ctx)
+    guarded(ctx, "R-obs components", component_family, ctx)
+    guarded(ctx, "R-env", env_family, ctx)
